@@ -1,6 +1,7 @@
 package props
 
 import (
+	"math"
 	"fmt"
 	"sort"
 	"strings"
@@ -286,13 +287,18 @@ func runC08(c *core.Ctx, r *core.Result) {
 					run.Close()
 					r.Outcome("extreme:" + outcomeClass(out))
 					if !out.Reached {
+						// the value the daemon decodes: version-1 price records carry float64 dollars, so 2^63-1 arrives as 2^63
+						dec := v
+						if who == "opr" && era.OPRVersion(b.Chain.Tip()) == 1 {
+							if f := math.Round(float64(v) / 1e8 * 1e8); f >= 9223372036854775808.0 {
+								dec = 1 << 63
+							}
+						}
 						vc := "2^63-1"
-						switch v {
-						case 1:
+						switch {
+						case dec == 1:
 							vc = "1"
-						case 1 << 63:
-							vc = ">=2^63"
-						case 1<<64 - 1:
+						case dec >= 1<<63:
 							vc = ">=2^63"
 						}
 						r.Violate(core.Violation{Key: key, Signature: c08Sig(era, "extreme-rates", []string{who + "-winners-rate-" + vc}, out),
